@@ -626,6 +626,65 @@ func HarnessBase64Invalid() {
 	}
 }
 
+// HarnessBase64Padding: padding faults. The text is drawn over a small
+// alphabet (data characters, '=', LF) so that every arrangement of padding up
+// to P characters occurs.
+func HarnessBase64Padding() {
+	n := ndIntRange("n", 1, verifParam("P", 6))
+	s := make([]byte, n)
+	for i := range s {
+		s[i] = []byte{'Q', 'U', '=', '\n', '-'}[ndChoice("c", 5)]
+	}
+	bad := false
+	// padding faults: '=' anywhere but at the end, more '=' than the last group
+	// can take, or a last group of a single character (CR and LF are skipped by
+	// the decoder and not counted). Too little padding is the documented
+	// "without padding" spelling.
+	data := []byte{}
+	for _, c := range s {
+		if c != '\n' && c != '\r' {
+			data = append(data, c)
+		}
+	}
+	p := 0
+	for len(data) > 0 && data[len(data)-1] == '=' {
+		data = data[:len(data)-1]
+		p++
+	}
+	for _, c := range data {
+		if c == '=' {
+			bad = true
+		}
+	}
+	switch len(data) % 4 {
+	case 0:
+		if p > 0 && len(data) > 0 {
+			bad = true
+		}
+	case 1:
+		bad = true
+	case 2:
+		if p > 2 {
+			bad = true
+		}
+	case 3:
+		if p > 1 {
+			bad = true
+		}
+	}
+	if len(data) == 0 && p > 0 {
+		return // only padding: not specified
+	}
+	sf, cell := j5reflect.VerifNewScalar(verifSchema(kBytes))
+	err := sf.SetGoValue(string(s))
+	if bad {
+		verifAssert(err != nil, "faulty-padding-rejected")
+	}
+	if err == nil {
+		verifAssert(cell.IsSet, "accepted-bytes-stored")
+	}
+}
+
 // ---------- H03 dates ----------
 
 func HarnessDateToken() {
